@@ -293,3 +293,6 @@ Definition kv_corr_C14 := kv_corr_proj mask_C14 rel_all.
 
 Definition kv_chk_C19 (c : scase * list ostep) : bool := chk_C19_kv c.
 Definition kv_corr_C19 := kv_corr_proj mask_C11 (fun o => match o with SQuery _ _ => true | _ => false end).
+
+Definition kv_chk_C12 (c : scase * list ostep) : bool := chk_C12_kv c.
+Definition kv_corr_C12 := kv_corr_proj mask_C11 (fun o => match o with SView _ _ _ _ | SPutDDoc _ _ _ | SDelDDoc _ _ => true | _ => false end).
